@@ -455,6 +455,12 @@ def call_method(ip, st, recv, name, args, kwargs):
             return r
         if cls is object and name == "__init__":
             return None
+        if cls is type and name == "__init__" and len(args) == 3 and not kwargs:
+            # super().__init__(name, bases, namespace) in a metaclass whose next __init__ in the MRO is type's:
+            # CPython's type_init (Objects/typeobject.c) only validates the argument count (1 or 3 positional
+            # arguments) and returns -- the class object was completed by type.__new__; it reads neither `bases`
+            # nor the namespace.  (cross-check: static check `type-init-is-a-no-op`, contracts/C14_metasignals.py)
+            return None
         raise Unsupported(f"super().{name} resolved to {cls.__name__}")
     if isinstance(recv, SObj) and recv.base_list:
         return list_method(ip, st, recv.fields[recv.base_list], name, args, kwargs)
@@ -530,6 +536,10 @@ def call_method(ip, st, recv, name, args, kwargs):
         if st.branch(bad):
             _raise(UnicodeEncodeError, "surrogates not allowed")
         return enc_t
+    if getattr(recv, "is_text", False) and name == "find" and 1 <= len(args) <= 2 and not kwargs:
+        from .text import text_find
+
+        return text_find(st, recv, args[0], args[1] if len(args) > 1 else 0)
     if getattr(recv, "is_text", False) and name == "isascii" and recv.kind == "str" and not args:
         from .text import isascii_of_text
 
@@ -949,7 +959,7 @@ def b_dict(ip, st, *args, **kwargs):
     if len(args) == 1 and not kwargs:
         x = st.force(args[0])
         if isinstance(x, ModelObj) and getattr(x, "py_class", None) is dict:
-            return x.py_call(ip, st, "copy", [], {})
+            return x.py_call(ip, st, "copy", [], {})  # (SFMap: a new SFMap; an instance __dict__ view: a constant-key dict)
         if isinstance(x, DRef):
             return DRef(x.d)
     if _all_conc(args) and _all_conc(list(kwargs.values())):
@@ -1344,6 +1354,14 @@ def call_builtin(ip, st, f, args, kwargs):
         items = args[0].seq if isinstance(args[0], LRef) else args[0]
         if isinstance(items, tuple) and all(isinstance(x, str) for x in items):
             return f(list(items))
+    # b"".rjust(n) / " ".ljust(n, "x") on a str / bytes CONSTANT with a symbolic width: the derived text of pyvc/textops.text_just
+    if getattr(f, "__name__", "") in ("rjust", "ljust") and type(getattr(f, "__self__", None)) in (str, bytes) and not (_all_conc(args) and _all_conc(list(kwargs.values()))):
+        from .text import as_text
+        from .textops import text_method as _tm
+
+        r = _tm(ip, st, as_text(f.__self__), f.__name__, args, kwargs)
+        if r is not NotImplemented:
+            return r
     # concrete call on concrete data of immutable builtin types: evaluate natively
     if _all_conc(args) and _all_conc(list(kwargs.values())) and _native_ok(f, args):
         try:
